@@ -17,8 +17,8 @@ Definition C15_full : Prop :=
   forall st cs rows k, call_wf st cs k = true ->
     run gen_cfg st (phys st) cs rows k = inr (spec_rows cs k rows, spec_count cs k rows).
 
-(** what is proved: the same statement on the decidable domain [call_ok gen_cfg] (it excludes exactly the
-    three shapes refuted below, and additionally admits predicates qualified by the table's own name) *)
+(** the same statement on the decidable domain [call_ok gen_cfg] (on the repaired source it contains
+    [call_wf]; it additionally admits predicates qualified by the table's own name) *)
 Theorem C15_partial :
   forall st cs rows k, call_ok gen_cfg st cs k = true ->
     run gen_cfg st (phys st) cs rows k = inr (spec_rows cs k rows, spec_count cs k rows).
@@ -66,6 +66,12 @@ Proof.
 Qed.
 Print Assumptions C15_full_if_patched.
 
+(** the repaired source (fix commits 4248493, 1da5c96, 9e45c12) has the three facts: the full property is
+    proved.  Reverting any of the three fixes makes this instantiation fail. *)
+Theorem C15_holds : C15_full.
+Proof. exact (C15_full_if_patched eq_refl eq_refl eq_refl). Qed.
+Print Assumptions C15_holds.
+
 (** the domain is inhabited by non-trivial calls: a swap of two columns guarded by a two-element
     predicate list in both reference styles, and a delete with an aliased CASE predicate *)
 Definition ex_st : tstate := ex_st_pre.
@@ -93,9 +99,9 @@ Example C15_history_nonempty :
      = [[VInt 3; VInt 5; VStr "x"]; [VInt 3; VInt 5; VStr "x"]].
 Proof. vm_compute. split; reflexivity. Qed.
 
-(** * Refutations of [C15_full] on the faithful model (each is a genuine defect, replayed on the
-      implementation by the harness).  Each is stated under the fact that makes it hold, so that a
-      repaired source turns it into a vacuous statement instead of a broken proof. *)
+(** * Refutations of [C15_full] on the model of the source BEFORE the three fixes (each was a genuine
+      defect, now fixed; the witnesses stay in the harness corpus).  Each is stated under the old value of
+      the fact that made it hold, so that on the repaired source it is vacuous but still compiles. *)
 
 (** a SQL-string predicate is taken for a column NAME *)
 Definition rf_sql : call := CDelete (WStr "a is null" (QIsNull (QCol None "a"))).
@@ -108,6 +114,13 @@ Proof.
   unfold run, rf_sql, compile, compile_where, compile_items, where_items. rewrite H. vm_compute. discriminate.
 Qed.
 Print Assumptions C15_refuted_sql_string.
+
+(** on the repaired source the same call does what the property says *)
+Example C15_sql_string_now_holds :
+  call_wf ex_st ex_cs rf_sql = true
+  /\ run gen_cfg ex_st "t1" ex_cs ex_rows rf_sql
+     = inr ([[VInt 1; VInt 2; VStr "x"]; [VInt 1; VInt 2; VStr "x"]; [VInt 2; VNull; VNull]], 1%nat).
+Proof. vm_compute. split; reflexivity. Qed.
 
 (** an assigned value written with col('b') raises ValueError("Column `b` does not exist in the table.") *)
 Definition rf_unq : call := CUpdate [(QCol None "a", QCol None "b")] WNone.
@@ -123,6 +136,12 @@ Proof.
   cbn [fst snd normalize map_q norm_q qrefs existsb]. rewrite H. cbn [orb]. discriminate.
 Qed.
 Print Assumptions C15_refuted_unqualified_value.
+
+Example C15_unqualified_value_now_holds :
+  call_wf ex_st ex_cs rf_unq = true
+  /\ run gen_cfg ex_st "t1" ex_cs ex_rows rf_unq
+     = inr ([[VInt 2; VInt 2; VStr "x"]; [VInt 3; VInt 3; VStr "x"]; [VInt 2; VInt 2; VStr "x"]; [VNull; VNull; VNull]], 4%nat).
+Proof. vm_compute. split; reflexivity. Qed.
 
 (** an assigned value built by a function keeps its automatic alias: SET a = COALESCE(..) AS coalesce__a__ *)
 Definition rf_alias : call :=
@@ -142,3 +161,9 @@ Proof.
   destruct (set_requalifies gen_cfg); cbn [map_q has_alias negb andb]; discriminate.
 Qed.
 Print Assumptions C15_refuted_aliased_value.
+
+Example C15_aliased_value_now_holds :
+  call_wf ex_st ex_cs rf_alias = true
+  /\ run gen_cfg ex_st "t1" ex_cs ex_rows rf_alias
+     = inr ([[VInt 1; VInt 2; VStr "x"]; [VInt 0; VInt 3; VStr "x"]; [VInt 1; VInt 2; VStr "x"]; [VInt 2; VNull; VNull]], 4%nat).
+Proof. vm_compute. split; reflexivity. Qed.
